@@ -38,7 +38,8 @@ class Contract:
                  raises=None, modifies=(), returns=None, loops=None, env=None, inline=(), configs=None,
                  helpers=None, canaries=(), replay=None, known=(), note="", callee_only=False,
                  verify_only=False, exc_fields=None, effect=None, max_paths=20000, assumes=(), role="top",
-                 ghost_init=None, callee_ensures=None, allow_no_exit=False, parallel=False):
+                 ghost_init=None, callee_ensures=None, allow_no_exit=False, parallel=False, decorated=False,
+                 raises_any=False):
         self.prop = prop
         self.file = file
         self.qualname = qualname
@@ -70,6 +71,8 @@ class Contract:
         self.callee_ensures = callee_ensures
         self.allow_no_exit = allow_no_exit
         self.parallel = parallel
+        self.decorated = decorated          # verify the function as callers see it (through its decorators)
+        self.raises_any = raises_any        # exceptional exits are not judged by this contract
 
     @property
     def modname(self):
@@ -394,6 +397,9 @@ def run_path(it, c, cfg, mod, node, res):
     ctx.values = list(su.get("values", []))
     if c.ghost_init:
         ctx.ghost.update(c.ghost_init(it, cfg) or {})
+    if c.decorated and node.decorator_list:
+        func = decorate(it, mod, func, node)
+        it.inline.add((mod.name, c.qualname))
     # parameters: defaults from the real signature
     env = it.bind_args(func, [], dict(args))
     base = spec_env(it, c, dict(env, **spec))
@@ -403,22 +409,22 @@ def run_path(it, c, cfg, mod, node, res):
         ctx.assume(eval_clause(it, cl, base, func))
     it.old_env = {k: snapshot(v) for k, v in base.items()}
     it.old_env["__globals__"] = dict(it.env_over)
-    n_req = len(ctx.pc)
     fr = Frame(func, env, func.closure)
     it.frames.append(fr)
     outcome = None
+    fnode = func.node
     try:
-        if isinstance(node, ast.Lambda):
-            result = it.eval(node.body, fr)
+        if isinstance(fnode, ast.Lambda):
+            result = it.eval(fnode.body, fr)
         else:
             from .interp import _is_generator
-            if _is_generator(node):
+            if _is_generator(fnode):
                 ys = []
                 fr.yield_sink = lambda v: ys.append(v)
-                it.exec_block(node.body, fr)
+                it.exec_block(fnode.body, fr)
                 result = ys
             else:
-                it.exec_block(node.body, fr)
+                it.exec_block(fnode.body, fr)
                 result = None
         outcome = ("return", result)
     except _Return as r:
@@ -443,6 +449,8 @@ def run_path(it, c, cfg, mod, node, res):
         res.exits.append((f"raise:{exc.cls.__name__}", list(ctx.pc), list(ctx.decls), list(ctx.usorts)))
         post_env["exc"] = exc
         allowed = None
+        if c.raises_any:
+            return
         for nm, cond in c.raises.items():
             if issubclass(exc.cls, exc_class(nm)):
                 # most specific listed class wins
@@ -489,3 +497,38 @@ def split_roots(c, cfg, registry, want=48, max_probe=400):
         else:
             done.append(r)
     return done + roots
+
+
+def decorate(it, mod, func, node):
+    """the callable that callers of a decorated method see: the decorators' inner
+    wrapper functions (read from the real source) around the real body"""
+    cur = func
+    for d in reversed(node.decorator_list):
+        name = ast.unparse(d)
+        if name in ("property", "staticmethod", "classmethod"):
+            continue
+        dmod, dnode = None, None
+        for m in (mod, it.repo_module("_common")):
+            st = m.toplevel(name)
+            if isinstance(st, ast.FunctionDef):
+                dmod, dnode = m, st
+                break
+        if dnode is None:
+            raise Unsupported(f"decorator {name} not found")
+        # the decorator returns its inner function: find `return <name>` and that def
+        ret = [s_ for s_ in dnode.body if isinstance(s_, ast.Return)]
+        if not ret or not isinstance(ret[-1].value, ast.Name):
+            raise Unsupported(f"decorator {name}: cannot identify the wrapper it returns")
+        wname = ret[-1].value.id
+        inner = [s_ for s_ in dnode.body if isinstance(s_, ast.FunctionDef) and s_.name == wname]
+        if not inner:
+            raise Unsupported(f"decorator {name}: wrapper {wname} not found")
+        param = dnode.args.args[0].arg
+        outer = RepoFunc(dmod, name, dnode)
+        clo = Frame(outer, {param: cur}, None)
+        # sibling helper defs of the decorator (cache_activate ...) are visible too
+        for s_ in dnode.body:
+            if isinstance(s_, ast.FunctionDef) and s_.name != wname:
+                clo.env[s_.name] = RepoFunc(dmod, f"{name}.<locals>.{s_.name}", s_, closure=clo)
+        cur = RepoFunc(dmod, f"{name}.<locals>.{wname}", inner[0], closure=clo)
+    return cur
